@@ -309,7 +309,7 @@ DISK_METRICS = [
 
 _CNT = st.integers(0, 10**7) | st.sampled_from([0, 1, 59999, 60000])
 _BIGCNT = _CNT | st.integers(0, 10**12)
-_BYTES = st.integers(0, 10**10)
+_BYTES = st.integers(0, 10**10) | st.sampled_from([2**40 + 5, 3 * 2**40 + 2**39, 2**41, 2**50])  # (fields of more than a TiB exist)
 _SUM_TIME_NAMES = st.lists(st.sampled_from(sorted(SUM_TIME_METRICS)), max_size=3, unique=True)
 _SUM_NAMES = st.lists(st.sampled_from(sorted(SUM_METRICS)), max_size=4, unique=True)
 _MEDIAN_NAMES = st.lists(st.sampled_from(sorted(MEDIAN_METRICS)), max_size=2, unique=True)
